@@ -38,7 +38,7 @@ def main():
         for p in props:
             for s in seeds:
                 t0 = time.time()
-                e = dict(os.environ); e["VERIF_SEED"] = s; e["VERIF_OVERLAY"] = ov
+                e = dict(os.environ); e["VERIF_SEED"] = s; e["VERIF_OVERLAY"] = ov; e.setdefault("VERIF_INSTANCE_OFFSET", "16")
                 r = subprocess.run(["python3", os.path.join(ROOT, "vcheck.py"), "run", p, "--tier", tier], capture_output=True, text=True, env=e, cwd=ROOT)
                 lines = [l for l in r.stdout.splitlines() if l.startswith("VIOLATION") or l.startswith("--- failing") or l.startswith("replay failed") or l.startswith("BUILD-FAILED")]
                 results.append({"property": p, "tier": tier, "seed": int(s), "exit": r.returncode, "wall_s": round(time.time() - t0, 1), "lines": [l[:400] for l in lines[:6]]})
